@@ -44,7 +44,8 @@ Proof.
   unfold decode_quoted, unicode_escape_decode. intro H.
   destruct (utf8_encode body) as [b|] eqn:E1; cbn [bind] in H.
   - destruct (ued named UN b) as [u|] eqn:E2; cbn [bind] in H.
-    + destruct (latin1_encode u) as [b'|]; [destruct (utf8_decode b')|]; discriminate.
+    + destruct (negb (forallb is_ascii body)); [|discriminate].
+      destruct (latin1_encode u) as [b'|]; [destruct (utf8_decode b')|]; discriminate.
     + apply (ued_raise named b UN). congruence.
   - apply (utf8_encode_raise body). congruence.
 Qed.
